@@ -561,6 +561,9 @@ func (w *World) RunCall(conn grpc.ClientConnInterface, spec *CallSpec) {
 					delete(tmd, "a")
 				}
 				w.Log(Event{Actor: actor, Op: "ctxchan", Detail: d})
+			} else if _, tunneled := conn.(grpctunnel.TunnelChannel); tunneled || spec.ChanOpt {
+				// the stream of a tunneled RPC whose context does not identify its tunnel
+				w.Log(Event{Actor: actor, Op: "ctxchan", Detail: "<none> outtunmd=<none>"})
 			}
 		case "send":
 			m := MakeMsg(spec.Tag, 0, nSent, op.Size)
